@@ -361,27 +361,29 @@ def flags(ops):
     return f
 
 
-def exhaustive(tier):
-    """every history  prelude ++ w,  w over a small alphabet, |w| <= L"""
-    alpha = []
-    for g in (0, 1):
-        alpha += [["addF", g, [0], 1, None], ["addF", g, [1], 1, None], ["addF", g, [0, 1], 1, None],
-                  ["rmF", g, 0], ["rmF", g, 1], ["addS", g, [1, 2], [0]], ["rmS", g, 0]]
-    alpha += [["copy", 0], ["new", "a"], ["alls", 0, 2]]
-    L = 3 if tier == "quick" else 4
+ALPHA = []
+for _g in (0, 1):
+    ALPHA += [["addF", _g, [0], 1, None], ["addF", _g, [1], 1, None], ["addF", _g, [0, 1], 1, None],
+              ["rmF", _g, 0], ["rmF", _g, 1], ["addS", _g, [1, 2], [0]], ["rmS", _g, 0]]
+ALPHA += [["copy", 0], ["new", "a"], ["alls", 0, 2]]
+# deeper on one object with removals (name collisions need add, add, remove, add)
+SMALL = [["addF", 0, [0], 0, None], ["addF", 0, [1], 1, None], ["rmF", 0, 0], ["rmF", 0, 1],
+         ["addS", 0, [1, 2], []], ["rmS", 0, 0], ["rmS", 0, 1], ["copy", 0], ["addF", 1, [0, 1], 1, None]]
+
+
+def exh_words(n):
+    """every history  prelude ++ w,  w a word of length n over ALPHA, both classes"""
     for cls in ("a", "p"):
         pre = [["new", cls], ["node", 0, 0], ["node", 0, 1]]
-        for n in range(1, L + 1):
-            for w in itertools.product(alpha, repeat=n):
-                yield {"ops": pre + [list(o) for o in w], "src": "exh%d" % n}
-    # deeper on one object with removals (name collisions need add, add, remove, add)
-    small = [["addF", 0, [0], 0, None], ["addF", 0, [1], 1, None], ["rmF", 0, 0], ["rmF", 0, 1],
-             ["addS", 0, [1, 2], []], ["rmS", 0, 0], ["rmS", 0, 1], ["copy", 0], ["addF", 1, [0, 1], 1, None]]
-    L2 = 4 if tier == "quick" else 5
+        for w in itertools.product(ALPHA, repeat=n):
+            yield {"ops": pre + [list(o) for o in w], "src": "exh%d" % n}
+
+
+def exh_deep(n):
     for cls in ("a", "p"):
         pre = [["new", cls], ["edge", 0, 0, 1, "directed"]]
-        for w in itertools.product(small, repeat=L2):
-            yield {"ops": pre + [list(o) for o in w], "src": "exhdeep%d" % L2}
+        for w in itertools.product(SMALL, repeat=n):
+            yield {"ops": pre + [list(o) for o in w], "src": "exhdeep%d" % n}
 
 
 def rand_history(rng, idx):
@@ -481,16 +483,26 @@ def rand_history(rng, idx):
 
 
 def gen_cases(ctx):
+    """corpus, the exhaustive blocks (always completed) and the random stream; a fixed first share of
+    the random stream comes before the largest exhaustive blocks, the rest after them (that rest is
+    what the soft deadline may cut)"""
     tier, rng = ctx["tier"], ctx["rng"]
     for c in C.load_corpus(PID):
         d = dict(c)
         d["src"] = "corpus"
         yield d
-    for c in exhaustive(tier):
-        yield c
+    for n in (1, 2, 3):
+        yield from exh_words(n)
+    yield from exh_deep(4)
     N = 12000 if tier == "quick" else 150000
-    for i in range(N):
+    first = N if tier == "quick" else 40000
+    for i in range(first):
         yield rand_history(rng, i)
+    if tier == "thorough":
+        yield from exh_words(4)
+        yield from exh_deep(5)
+        for i in range(first, N):
+            yield rand_history(rng, i)
 
 
 # ----------------------------------------------------------------------------- run / replay
@@ -558,32 +570,48 @@ def run(ctx):
                       "class-level state is reset at the start of every history (fresh process)",
                       "add_all_snode_combinations is executed only on graphs without S-nodes (or n < 2): it uses fixed names, "
                       "so its outcome otherwise depends on the unspecified names of the existing S-nodes"]
-    cases = list(gen_cases(ctx))
-    models = C.lean_batch([model_line(c["ops"]) for c in cases])
-    trs = C.pmap(_impl_safe, cases, chunksize=128)
-    crashed = [(c, t) for c, t in zip(cases, trs) if "crash" in t]
-    if crashed:
-        raise RuntimeError("harness crashed on %r: %s" % (crashed[0][0], crashed[0][1]["crash"]))
-    verdicts = C.lean_batch([valid_line(t) for t in trs])
+    import time
     bad_spec, bad_corr = [], []
-    for case, tr, m, v in zip(cases, trs, models, verdicts):
-        fl = flags(case["ops"])
-        nontriv = bool(fl & {"remove-nonlast-F-then-add", "removeS-then-addS", "copy-then-add", "copy-then-remove",
-                             "addS-with-several-live-objects"})
-        ev.case(case, nontrivial=nontriv, sample_every=20000)
-        ev.count("src:" + case["src"].split(":")[0] + (":" + case["src"].split(":")[1] if ":" in case["src"] else ""))
-        for f in fl:
-            ev.count("shape:" + f)
-        for op in case["ops"]:
-            ev.count("op:" + op[0])
-        ev.count("steps", len(case["ops"]))
-        for s in tr["status"]:
-            ev.count("status:" + s)
-        diff = first_diff(case, tr, parse_model(m))
-        if v != "ok":
-            bad_spec.append((case, diff, v))
-        elif diff is not None:
-            bad_corr.append((case, diff, v))
+    gen = gen_cases(ctx)
+    BATCH = 24000
+    # leave time for shrinking / reporting; the exhaustive part is always completed
+    soft_deadline = ctx["deadline"] - (110 if ctx["tier"] == "quick" else 1080)  # t0+40 s / t0+7 min
+    truncated = 0
+    while True:
+        cases = list(itertools.islice(gen, BATCH))
+        if not cases:
+            break
+        if time.time() > soft_deadline and ev.evaluations >= (20000 if ctx["tier"] == "quick" else 40000) and all(c["src"].startswith("rnd") for c in cases):
+            truncated += len(cases) + sum(1 for _ in gen)
+            break
+        models = C.lean_batch([model_line(c["ops"]) for c in cases])
+        trs = C.pmap(_impl_safe, cases, chunksize=128)
+        crashed = [(c, t) for c, t in zip(cases, trs) if "crash" in t]
+        if crashed:
+            raise RuntimeError("harness crashed on %r: %s" % (crashed[0][0], crashed[0][1]["crash"]))
+        verdicts = C.lean_batch([valid_line(t) for t in trs])
+        for case, tr, m, v in zip(cases, trs, models, verdicts):
+            fl = flags(case["ops"])
+            nontriv = bool(fl & {"remove-nonlast-F-then-add", "removeS-then-addS", "copy-then-add", "copy-then-remove",
+                                 "addS-with-several-live-objects"})
+            ev.case(case, nontrivial=nontriv, sample_every=20000)
+            ev.count("src:" + case["src"])
+            for f in fl:
+                ev.count("shape:" + f)
+            for op in case["ops"]:
+                ev.count("op:" + op[0])
+            ev.count("steps", len(case["ops"]))
+            for st in tr["status"]:
+                ev.count("status:" + st)
+            diff = first_diff(case, tr, parse_model(m))
+            if v != "ok":
+                bad_spec.append((case, diff, v))
+            elif diff is not None:
+                bad_corr.append((case, diff, v))
+        del trs, models, verdicts
+        if len(bad_spec) + len(bad_corr) > 2000:
+            break
+    ev.extra["random_histories_not_run_for_time"] = truncated
     ev.extra["exhaustive_part"] = "all words up to the stated length over the stated alphabets, both classes"
     ev.extra["spec_failures"] = len(bad_spec)
     ev.extra["model_disagreements"] = len(bad_corr)
